@@ -138,3 +138,22 @@ Definition cex_decoder_bytes :=
 Definition cex_decoder_end :=
   cex_search (opt_eqb (pair_eqb N.eqb N.eqb)) (fun x => run_end (fst x) (snd x)) (fun x => model_end (fst x) (snd x))
     (pairs cand_readers cand_errs).
+
+(** ** The encoder over a writer that takes everything: what is written. *)
+Definition run_enc_bytes (bs : list N) : option (list N * Z) :=
+  match gen_sniproxy_encoder_bytes (mkWriter [7%N] []) 5 None bs with
+  | GoOk (n, None, w) => Some (wr_out w, n)
+  | _ => None
+  end.
+Definition cex_encoder_bytes :=
+  cex_search (opt_eqb (pair_eqb str_eqb Z.eqb)) run_enc_bytes
+    (fun bs => Some ((7%N :: enc_bytes bs), 5 + 8 + go_len bs))
+    [[]; [1%N]; [1; 2; 3]%N; repeat 9%N 300].
+Definition run_enc_u64 (v : N) : option (list N * Z) :=
+  match gen_sniproxy_encoder_u64 (mkWriter [] []) 0 None (Z.of_N v) with
+  | GoOk (n, None, w) => Some (wr_out w, n)
+  | _ => None
+  end.
+Definition cex_encoder_u64 :=
+  cex_search (opt_eqb (pair_eqb str_eqb Z.eqb)) run_enc_u64 (fun v => Some (le64 v, 8))
+    [0; 1; 255; 256; 65535; 4294967296; 9223372036854775808; 18446744073709551615]%N.
